@@ -556,6 +556,11 @@ class Ctx:
             except BuildError as e:
                 self.violation("build", "attached development does not build: " + str(e)[:800],
                                {"theorem_or_correspondence": "build of an attached correspondence harness"}, found=False)
+            except Exception as e:      # never lose the property's own verdict to a crash of an attachment
+                import traceback
+                self.violation("attachment", "attached correspondence run failed: %r" % (e,),
+                               {"theorem_or_correspondence": "attached development", "traceback": traceback.format_exc()[-2000:]},
+                               found=False)
         cov = self.cov
         if extra_cov:
             cov.update(extra_cov)
